@@ -80,7 +80,9 @@ def search(prop, failing, kres, tier):
                 gsrc = kres.get("frag_src", {}).get(grp, gsrc)
             pb = kanilib.concrete_playback(gsrc, h, extra_args=KANI_GROUPS.get(grp, {}).get("args"), group=grp)
             if pb:
-                out["input"] = {"kind": "kani-concrete-playback", "harness": h, "unit_test": pb}
+                rep = kanilib.playback(prop, grp, pb) if grp else {"reproduced": None, "tail": "no group"}
+                out["input"] = {"kind": "kani-concrete-playback", "harness": h, "group": grp, "unit_test": pb,
+                                "replayed_on_real_code": rep}
                 return out
     targets = mirror_targets(prop, failing)
     if not targets:
@@ -162,9 +164,14 @@ def run_replay_file(prop, path):
         print(f"VIOLATION property={prop} replay={path} no-failing-input-found")
         return 1
     if inp["kind"] == "kani-concrete-playback":
-        print("Kani concrete playback test for harness", inp["harness"])
+        print("Kani counterexample for harness", inp["harness"], "- replaying the concrete values natively against the current tree")
         print(inp["unit_test"])
-        print(f"VIOLATION property={prop} replay={path}")
+        rep = kanilib.playback(prop, inp.get("group"), inp["unit_test"]) if inp.get("group") else {"reproduced": None, "tail": "no group recorded"}
+        print("playback:", rep.get("cmd", ""), "->", rep.get("tail", ""))
+        if rep.get("reproduced") is False:
+            print(f"OK property={prop} replayed input no longer fails")
+            return 0
+        print(f"VIOLATION property={prop} replay={path}" + ("" if rep.get("reproduced") else " (playback could not be run; the counterexample is the one recorded by Kani)"))
         return 1
     if inp["target"] in FRAG_MIRRORS:
         binp, err = build_frag_mirror(inp["target"], *FRAG_MIRRORS[inp["target"]])
